@@ -7,7 +7,12 @@ use crate::vx::*;
 use crate::spec::*;
 use crate::precis_profiles::common;
 use crate::precis_core::Error;
+use crate::precis_core::profile::{stabilize, PrecisFastInvocation, Profile, Rules};
+use crate::precis_core::stringclasses::{FreeformClass, StringClass, allows_spec};
 ''' + BROADCAST
+
+INTO_S = ('REQ.into', "<S as IntoSpec<Cow<'a, str>>>::obeys_into_spec()")
+INTO_T = ('REQ.into', "<T as IntoSpec<Cow<'a, str>>>::obeys_into_spec()")
 
 # ---------------------------------------------------------------------------------------------
 find_disallowed_space = Fn(
@@ -59,7 +64,7 @@ find_disallowed_space = Fn(
 
 trim_spaces = Fn(
     'trim_spaces', ret='r',
-    requires=[('REQ.into', "<T as IntoSpec<Cow<'a, str>>>::obeys_into_spec()")],
+    requires=[INTO_T],
     ensures=[
         ('C12.trim_ok', 'r is Ok'),
         ('C12.trim_collapse', 'r matches Ok(x) ==> x@ == collapse(IntoSpec::<Cow<str>>::into_spec(s)@)'),
@@ -102,8 +107,59 @@ proof { lemma_boff(s@, k); lemma_eager_fixed(s@.take(k)); }'''),
 )
 
 
+S0 = "IntoSpec::<Cow<str>>::into_spec(s)@"
+FF_EXT = 'proof { assert((|c: char| self.0.value(c)) =~= ff_vf()); }'
+RV = 'res_view(r)'
+
+CLOSURE = r"|s: &str| -> (r: Result<Cow<str>, Error>) ensures res_view(r) == %s(s@) { \1 }"
+
+
+def fast(name, getter, prep, enf, cmp_):
+    """PrecisFastInvocation impl: same contracts as the instance methods; the lazily created static
+    profile is reached through `getter`, extracted by signature only (lazy_static! is macro-generated)."""
+    return [
+        Fn(getter, ret='r', mode='sig'),
+        Impl(r'impl\s+PrecisFastInvocation\s+for\s+%s\b' % name, lift='fast_%s_' % name, fns=[
+            Fn('prepare', ret='r', head=FACTS, requires=[INTO_S], ensures=[('C16.fast_prepare', 'res_view(r) == %s' % prep)]),
+            Fn('enforce', ret='r', head=FACTS, requires=[INTO_S], ensures=[('C16.fast_enforce', 'res_view(r) == %s' % enf)]),
+            Fn('compare', ret='r', head=FACTS, ensures=[('C16.fast_compare', 'r == %s' % cmp_)]),
+        ]),
+    ]
+
+
 def module(repo):
     return Module('nicknames', 'precis-profiles/src/nicknames.rs', [
         find_disallowed_space,
         trim_spaces,
-    ], header=HEADER)
+        Verbatim(r'pub\s+struct\s+Nickname\b'),
+        Impl(r'impl\s+Nickname\b', [
+            Fn('new', ret='r'),
+            Fn('apply_prepare_rules', ret='r', requires=[INTO_T], head=FACTS,
+               ensures=[('C06.prepare_rules', 'res_view(r) == freeform_prepare(%s)' % S0),
+                        ('C06+C16.prepare_unchanged', 'r matches Ok(x) ==> x@ == %s' % S0)],
+               inserts=[(r'self\.0\.allows\(&s\)\?;', 1, 'before', FF_EXT)]),
+            Fn('apply_enforce_rules', ret='r', requires=[INTO_T], head=FACTS,
+               ensures=[('C06.enforce_rules', 'res_view(r) == nick_step(%s)' % S0)]),
+            Fn('apply_compare_rules', ret='r', requires=[INTO_T], head=FACTS,
+               ensures=[('C07.compare_rules', 'res_view(r) == nick_cmp_step(%s)' % S0)]),
+        ]),
+        Impl(r'impl\s+Profile\s+for\s+Nickname\b', [
+            Fn('prepare', ret='r', head=FACTS,
+               ensures=[('C06.prepare', 'res_view(r) == freeform_prepare(%s)' % S0)]),
+            Fn('enforce', ret='r', head=FACTS,
+               rewrites=[('A.closure', r'\|s\|\s*(self\.\w+\(s\))', CLOSURE % 'nick_step', 1)],
+               ensures=[('C06.enforce', 'res_view(r) == nick_enforce(%s)' % S0)]),
+            Fn('compare', ret='r', head=FACTS,
+               rewrites=[('A.closure', r'\|s\|\s*(self\.\w+\(s\))', CLOSURE % 'nick_cmp_step', 2)],
+               ensures=[('C07.nick_compare', 'r == cmp_spec(nick_canon(as_ref_view(&s1)), nick_canon(as_ref_view(&s2)))')]),
+        ]),
+        Impl(r'impl\s+Rules\s+for\s+Nickname\b', [
+            Fn('additional_mapping_rule', ret='r', head=FACTS,
+               ensures=[('C12.nick_mapping', 'res_view(r) == Ok::<Seq<char>, Error>(collapse(%s))' % S0)]),
+            Fn('case_mapping_rule', ret='r', head=FACTS,
+               ensures=[('C10.nick_case', 'res_view(r) == Ok::<Seq<char>, Error>(lower_seq(%s))' % S0)]),
+            Fn('normalization_rule', ret='r', head=FACTS,
+               ensures=[('C06.nick_nfkc', 'res_view(r) == Ok::<Seq<char>, Error>(spec_nfkc(%s))' % S0)]),
+        ]),
+    ] + fast('Nickname', 'get_nickname_profile', 'freeform_prepare(%s)' % S0, 'nick_enforce(%s)' % S0,
+             'cmp_spec(nick_canon(as_ref_view(&s1)), nick_canon(as_ref_view(&s2)))'), header=HEADER)
